@@ -1,5 +1,5 @@
 #!/bin/sh
 # build the harness exactly as ./check does (always against the current /repo sources), then run it
 touch /repo/omaha-client/src/lib.rs /repo/mock-omaha-server/src/lib.rs
-cd /verif/harness && CARGO_NET_OFFLINE=true CARGO_TARGET_DIR=/verif/.cache/target RUSTFLAGS="--cfg omaha_client_verif" cargo build --offline 2>&1 | grep -E "^error" -A12
+( cd /verif/harness && CARGO_NET_OFFLINE=true CARGO_TARGET_DIR=/verif/.cache/target RUSTFLAGS="--cfg omaha_client_verif" cargo build --offline 2>&1 | grep -E "^error" -A12 )
 exec /verif/.cache/target/debug/vh "$@"
